@@ -88,6 +88,10 @@ static void body(int argc, char** argv) {
     drive<uint, vec4>("Unorm4x8", [](vec4 const& v) { return packUnorm4x8(v); }, [](uint p) { return unpackUnorm4x8(p); }, real_inputs<vec4>({ 255, 255, 255, 255 }, false));
     drive<uint, vec4>("Snorm4x8", [](vec4 const& v) { return packSnorm4x8(v); }, [](uint p) { return unpackSnorm4x8(p); }, real_inputs<vec4>({ 127, 127, 127, 127 }, true));
     drive<uint64, uvec2>("Double2x32", [](uvec2 const& v) { return to_bits(packDouble2x32(v)); }, [](uint64 p) { return unpackDouble2x32(from_bits<double>(p)); }, int_inputs<uvec2>());
+    // half formats (conversion itself is C07's subject; here: consistency, layout, canonical codes)
+    drive<uint, vec2>("Half2x16", [](vec2 const& v) { return packHalf2x16(v); }, [](uint p) { return unpackHalf2x16(p); }, real_inputs<vec2>({ 0, 0 }, false));
+    drive<uint16, f1>("Half1x16", [](f1 const& v) { return packHalf1x16(v.x); }, [](uint16 p) { return f1(unpackHalf1x16(p)); }, real_inputs<f1>({ 0 }, false));
+    drive<uint64, vec4>("Half4x16", [](vec4 const& v) { return packHalf4x16(v); }, [](uint64 p) { return unpackHalf4x16(p); }, real_inputs<vec4>({ 0, 0, 0, 0 }, false));
     // gtc: normalised
     drive<uint8, f1>("Unorm1x8", [](f1 const& v) { return packUnorm1x8(v.x); }, [](uint8 p) { return f1(unpackUnorm1x8(p)); }, real_inputs<f1>({ 255 }, false));
     drive<uint16, vec2>("Unorm2x8", [](vec2 const& v) { return packUnorm2x8(v); }, [](uint16 p) { return unpackUnorm2x8(p); }, real_inputs<vec2>({ 255, 255 }, false));
